@@ -136,6 +136,24 @@ def tsc_case(run, tsc, rng, k):
     if k % 5 == 3:
         pre = rng.integers(0, 7, shape).astype(gdt)  # accumulate into a supplied non-zero grid
     grid = np.zeros(shape, dtype=gdt) if pre is None else pre.copy()
+    # the supplied grid as a view that is not C-contiguous: the in-place padded rfftn layout buf[:, :, :n], a Fortran-ordered
+    # array, a transposed view, one component of a multi-field array -- the deposit must land in the caller's memory
+    layout = ['c', 'c', 'c', 'padded', 'c', 'fortran', 'c', 'c', 'transposed', 'c', 'component'][k % 11] if gdt == np.float32 else 'c'
+    if layout != 'c':
+        init = grid
+        if layout == 'padded':
+            buf = np.full(shape[:2] + (shape[2] + 2,), 7.0, dtype=gdt)
+            grid = buf[:, :, : shape[2]]
+        elif layout == 'fortran':
+            grid = np.zeros(shape, dtype=gdt, order='F')
+        elif layout == 'transposed':
+            grid = np.zeros(shape[::-1], dtype=gdt).T
+        else:
+            multi = np.full(shape + (2,), 7.0, dtype=gdt)
+            grid = multi[..., 1]
+        grid[...] = init
+        desc['grid_layout'] = layout
+        run.count('non_contiguous_grid_cases')
     run.ev()
     run.progress(desc)
     try:
@@ -147,6 +165,8 @@ def tsc_case(run, tsc, rng, k):
         return
     if out is not grid:
         return run.violation('tsc-supplied-grid-not-returned', desc)
+    if layout == 'padded' and not (buf[:, :, shape[2] :] == 7.0).all() or layout == 'component' and not (multi[..., 0] == 7.0).all():
+        return run.violation('tsc-wrote-outside-supplied-view', desc)
     # reference positions: what the documented wrap gives (positions in [0,box) or exactly box)
     pref = pos_in.astype(np.float64)
     if outside:
